@@ -156,7 +156,8 @@ class LazyMatches(list):
         if self._pending:
             self._pending = False
             if self._flag:
-                list.append(self, DummyMatch(self._name))
+                name = self._name.get() if isinstance(self._name, Cell) else self._name
+                list.append(self, DummyMatch(name))
 
     def __bool__(self):
         self._materialise()
@@ -265,6 +266,14 @@ def build(argv):
     return Built(argv)
 
 
+def native(fn, *args):
+    """Run concrete work outside CrossHair's tracer (its patched str/format/repr are slow and, for floats, wrong)."""
+    if NoTracing is not None and is_tracing():
+        with NoTracing():
+            return fn(*args)
+    return fn(*args)
+
+
 def admissible(argv):
     """True iff cutadapt accepts the option set (used natively when the catalogues are generated)."""
     try:
@@ -317,8 +326,8 @@ class Features:
         self.text_cell = Cell(tables["t"], text_index)
         self.name_cell = Cell(tables["c"], name_index)
         self.ee_cell = Cell(tables["e"], ee_index)
-        self.matches = LazyMatches(matched, adapter_name)
-        self.adapter_name = adapter_name
+        self.matches = LazyMatches(matched, adapter_name)     # adapter_name: a str, None, or a Cell (symbolic choice)
+        self._adapter_name = adapter_name
 
     text = property(lambda self: self.text_cell.get()[0])
     length = property(lambda self: self.text_cell.get()[1])
@@ -326,6 +335,7 @@ class Features:
     name = property(lambda self: self.name_cell.get()[0])
     is_y = property(lambda self: self.name_cell.get()[1])
     matched = property(lambda self: self.matches.matched())
+    adapter_name = property(lambda self: self._adapter_name.get() if isinstance(self._adapter_name, Cell) else self._adapter_name)
 
     @property
     def ee(self):
@@ -604,3 +614,90 @@ def writer_kind(spec, writer):
     if first.startswith("untrimmed.") and spec.out in ("files", "interleaved", "stdout"):
         return "untrimmed"
     return "final"
+
+
+# ------------------------------------------------------------------------------------- validation of the stand-ins
+_ADAPTER_SEQ = {"a1": "ACGTACGT", "a2": "TTTTGGGG", "b1": "GGCCGGCC", "b2": "AAAACCCC"}
+
+
+def validate_against_cli(specs, seed, per_set=40):
+    """Differential test of the stand-ins (LazyRec, RecordingOutfiles, MatchSetter, OneChunk) against the real thing:
+    the same concrete reads go (a) through the recording pipeline used by the conditions and (b) through
+    cutadapt.cli.main on real FASTQ files (real dnaio records, real adapter matching - the read is its table text
+    followed by the complete adapter, -O 8 -, real writers).  Every output file must hold the same reads in the
+    same order and the Statistics must agree.  Option sets that need the expected_errors stand-in are skipped.
+    -> {'vectors': number of reads compared, 'mismatches': [...]}"""
+    import os
+    import random
+    import tempfile
+    from cutadapt.report import Statistics
+    rnd = random.Random(seed)
+    vectors, mismatches = 0, []
+    for spec in specs:
+        if spec.max_ee is not None or spec.max_aer is not None or spec.out == "stdout":
+            continue
+        tables = tables_for(spec)
+        name_rows = [i for i, (nm, _) in enumerate(tables["c"]) if not spec.paired or " " in nm or nm == "r"]
+        items, lines1, lines2 = [], [], []
+        for i in range(per_set):
+            feats = []
+            for mate in (1, 2) if spec.paired else (1,):
+                names = spec.names(mate)
+                f = Features(rnd.randrange(len(tables["t"])), rnd.choice(name_rows), 0, bool(names) and rnd.random() < 0.5,
+                             rnd.choice(names) if names else None, tables)
+                feats.append(f)
+            recs = [LazyRec(f) for f in feats]
+            items.append(tuple(recs) if spec.paired else recs[0])
+            for f, lines in zip(feats, (lines1, lines2)):
+                seq = f.text + (_ADAPTER_SEQ[f.adapter_name] if f.matched else "")
+                f.real_name = "q%d%s" % (i, f.name[1:])
+                lines.append("@%s\n%s\n+\n%s\n" % (f.real_name, seq, "I" * len(seq)))
+        # (a) the recording pipeline
+        built = Built(spec.argv())
+        n, bp1, bp2 = built.run(items, MatchSetter())
+        want = {}
+        for writer, recs in built.outfiles.log:
+            if writer.interleaved:
+                want.setdefault(writer.paths[0], []).extend(r.features.real_name for r in recs)
+            else:
+                for path, r in zip(writer.paths, recs):
+                    want.setdefault(path, []).append(r.features.real_name)
+        stub_stats = Statistics().collect(n, bp1, bp2, [], built.steps)
+        # (b) the real program
+        cwd = os.getcwd()
+        with tempfile.TemporaryDirectory(prefix="verif-c04-") as tmp:
+            try:
+                os.chdir(tmp)
+                inputs = ["in.1.fq"]
+                if spec.paired and spec.out == "interleaved":
+                    with open("in.1.fq", "w") as f:
+                        f.write("".join(a + b for a, b in zip(lines1, lines2)))
+                else:
+                    with open("in.1.fq", "w") as f:
+                        f.write("".join(lines1))
+                    if spec.paired:
+                        with open("in.2.fq", "w") as f:
+                            f.write("".join(lines2))
+                        inputs.append("in.2.fq")
+                try:
+                    real_stats = _cli.main(list(spec.argv()) + ["-O", "8", "--quiet"] + inputs)
+                except SystemExit as e:
+                    mismatches.append("%s: cutadapt exited with %r" % (spec.label(), e.code))
+                    continue
+                got = {}
+                for fn in os.listdir(tmp):
+                    if fn.startswith("in.") or not fn.endswith(".fq"):
+                        continue
+                    with open(fn) as f:
+                        got[fn] = [line[1:].rstrip("\n") for k, line in enumerate(f) if k % 4 == 0]
+            finally:
+                os.chdir(cwd)
+        vectors += len(items)
+        got = {k: v for k, v in got.items() if v}
+        if got != want:
+            mismatches.append("%s: output files differ: real %r, recording pipeline %r" % (spec.label(), got, want))
+        if (real_stats.n, real_stats.written, dict(real_stats.filtered), real_stats.written_bp) != \
+                (stub_stats.n, stub_stats.written, dict(stub_stats.filtered), stub_stats.written_bp):
+            mismatches.append("%s: Statistics differ: real n=%r written=%r filtered=%r, recording pipeline n=%r written=%r filtered=%r" % (
+                spec.label(), real_stats.n, real_stats.written, dict(real_stats.filtered), stub_stats.n, stub_stats.written, dict(stub_stats.filtered)))
+    return {"vectors": vectors, "mismatches": mismatches}
